@@ -31,11 +31,23 @@ theorem exp_zero_exact (p : Nat) (hp : p ≠ 0) : expEntry false (fin 0 0) p = .
 theorem exp_m1_zero_exact (p : Nat) (hp : p ≠ 0) : expEntry true (fin 0 0) p = .exactConst 0 := by
   simp [expEntry, fin, FIn.isZero, hp]
 
-theorem ln_one_exact (p : Nat) (hp : p ≠ 0) : lnEntry false (fin 1 0) p = .exactConst 0 := by
+theorem ln_one_exact (B p : Nat) (hp : p ≠ 0) : lnEntry B false (fin 1 0) p = .exactConst 0 := by
   simp [lnEntry, fin, FIn.isZero, FIn.isOne, hp]
 
-theorem ln_1p_zero_exact (p : Nat) (hp : p ≠ 0) : lnEntry true (fin 0 0) p = .exactConst 0 := by
+theorem ln_1p_zero_exact (B p : Nat) (hp : p ≠ 0) : lnEntry B true (fin 0 0) p = .exactConst 0 := by
   simp [lnEntry, fin, FIn.isZero, FIn.isOne, hp]
+
+/-- outside the domain (`x ≤ 0`) `ln` is refused by the documented panic -/
+theorem ln_nonpositive (B : Nat) (sig exp : Int) (hs : sig ≤ 0) (p : Nat) (hp : p ≠ 0) :
+    lnEntry B false (fin sig exp) p = .panic .logNonpositive := by
+  have h1 : ¬ (sig = 1 ∧ exp = 0) := by omega
+  simp [lnEntry, fin, FIn.isOne, hp, hs, h1]
+
+/-- outside the domain (`x ≤ -1`) `ln_1p` is refused by the documented panic -/
+theorem ln_1p_le_neg_one (B : Nat) (sig exp : Int) (hx : fval B sig exp ≤ -1) (hs : sig < 0) (p : Nat)
+    (hp : p ≠ 0) : lnEntry B true (fin sig exp) p = .panic .logNonpositive := by
+  have h0 : sig ≠ 0 := by omega
+  simp [lnEntry, fin, FIn.isZero, hp, hs, h0, hx]
 
 /-- `x⁰ = 1`, flagged Exact, for every finite base (also `0⁰`) and every precision (also unlimited) -/
 theorem powi_zero_exact (sig exp : Int) (p : Nat) : powiEntry (fin sig exp) 0 p = .exactConst 1 := by
@@ -56,32 +68,33 @@ theorem powf_one_round (x : FIn) (hx : x.inf = false) (p : Nat) (hp : p ≠ 0) :
 /-- unlimited precision is refused by panic (exp, exp_m1, ln, ln_1p, powf always; powi for negative exponents) -/
 theorem exp_unlimited (m1 : Bool) (x : FIn) (hx : x.inf = false) :
     expEntry m1 x 0 = .panic .unlimitedPrecision := by simp [expEntry, hx]
-theorem ln_unlimited (op : Bool) (x : FIn) (hx : x.inf = false) :
-    lnEntry op x 0 = .panic .unlimitedPrecision := by simp [lnEntry, hx]
-theorem powf_unlimited (x y : FIn) (hx : x.inf = false) :
-    powfEntry x y 0 = .panic .unlimitedPrecision := by simp [powfEntry, hx]
+theorem ln_unlimited (B : Nat) (op : Bool) (x : FIn) (hx : x.inf = false) :
+    lnEntry B op x 0 = .panic .unlimitedPrecision := by simp [lnEntry, hx]
+theorem powf_unlimited (x y : FIn) (hx : x.inf = false) (hy : y.inf = false) :
+    powfEntry x y 0 = .panic .unlimitedPrecision := by simp [powfEntry, hx, hy]
 theorem powi_neg_unlimited (x : FIn) (hx : x.inf = false) (k : Int) (hk : k < 0) :
     powiEntry x k 0 = .panic .unlimitedPrecision := by simp [powiEntry, hx, hk]
 
 /-- infinities are refused by panic, whatever the precision -/
 theorem exp_infinite (m1 : Bool) (x : FIn) (hx : x.inf = true) (p : Nat) :
     expEntry m1 x p = .panic .infinite := by simp [expEntry, hx]
-theorem ln_infinite (op : Bool) (x : FIn) (hx : x.inf = true) (p : Nat) :
-    lnEntry op x p = .panic .infinite := by simp [lnEntry, hx]
+theorem ln_infinite (B : Nat) (op : Bool) (x : FIn) (hx : x.inf = true) (p : Nat) :
+    lnEntry B op x p = .panic .infinite := by simp [lnEntry, hx]
 theorem powi_infinite (x : FIn) (hx : x.inf = true) (k : Int) (p : Nat) :
     powiEntry x k p = .panic .infinite := by simp [powiEntry, hx]
-theorem powf_infinite (x y : FIn) (hx : x.inf = true) (p : Nat) :
-    powfEntry x y p = .panic .infinite := by simp [powfEntry, hx]
+theorem powf_infinite (x y : FIn) (hx : x.inf = true ∨ y.inf = true) (p : Nat) :
+    powfEntry x y p = .panic .infinite := by
+  rcases hx with h | h <;> simp [powfEntry, h]
 
 /-- a negative base of `powf` is refused by panic unless a shortcut (`y = 0`, `y = 1`) applies -/
-theorem powf_negative_base (x y : FIn) (hx : x.inf = false) (hneg : x.sig < 0) (p : Nat) (hp : p ≠ 0)
-    (hy0 : y.isZero = false) (hy1 : y.isOne = false) :
+theorem powf_negative_base (x y : FIn) (hx : x.inf = false) (hyf : y.inf = false) (hneg : x.sig < 0)
+    (p : Nat) (hp : p ≠ 0) (hy0 : y.isZero = false) (hy1 : y.isOne = false) :
     powfEntry x y p = .panic .powNegativeBase := by
   have hz : x.isZero = false := by
     simp only [FIn.isZero, hx]
     have : x.sig ≠ 0 := by omega
     simp [this]
-  simp [powfEntry, hx, hp, hy0, hy1, hz, hneg]
+  simp [powfEntry, hx, hyf, hp, hy0, hy1, hz, hneg]
 
 /-- behind the guards the numerical algorithm runs: exactly the inputs on which the certificate is used -/
 theorem exp_compute (m1 : Bool) (sig exp : Int) (hs : sig ≠ 0) (p : Nat) (hp : p ≠ 0) :
